@@ -508,6 +508,9 @@ def powr(a, b):
     if a.op == "fn" and a.args[0] == "exp":
         REWRITES.add("exp(t)**b -> exp(b*t)")
         return fn("exp", mul(b, a.args[1]))
+    if not (b.op == "const"):
+        REWRITES.add("a**b -> exp(b*log a)  [a > 0, b not constant]")
+        return fn("exp", mul(b, fn("log", a)))
     return mk("powr", a, b)
 
 
